@@ -23,13 +23,14 @@ func init() {
 }
 
 type fileState struct {
-	dir   string
-	name  [2]string // per protocol (0 = v4, 1 = v6)
-	h4    handler.Handler4
-	h6    handler.Handler6
+	dir     string
+	name    [2]string // per protocol (0 = v4, 1 = v6)
+	h4      handler.Handler4
+	h6      handler.Handler6
 	auto    [2]bool
 	watched [2]string // the file the serving instance of each protocol was set up on
 	nfile   int
+	wedged  bool // a lookup never returned: every further call into the plugin would block
 }
 
 func (s *fileState) close() {
@@ -82,6 +83,9 @@ func tablePtr(v6 bool) uintptr {
 
 func (s *fileState) exec(c *ctx, op string) string {
 	f := strings.Fields(op)
+	if s.wedged && f[0] != "freset" {
+		return "" // a lookup never returned: every further call into the plugin would block too
+	}
 	switch f[0] {
 	case "freset": // a fresh process: nothing is set up
 		c.emit(op, "ok")
@@ -141,19 +145,8 @@ func (s *fileState) exec(c *ctx, op string) string {
 		// One write() and no truncation, so that the watcher sees exactly one change and never an
 		// intermediate (empty or half-written) file: pad the new content with comment lines up to the
 		// length of the current file and overwrite in place.
-		if st, err := os.Stat(s.name[pi]); err == nil && int64(len(content)) < st.Size() {
-			if len(content) > 0 && content[len(content)-1] != '\n' {
-				content = append(content, '\n')
-			}
-			for int64(len(content)) < st.Size() {
-				pad := st.Size() - int64(len(content))
-				if pad == 1 {
-					content = append(content, '\n')
-				} else {
-					line := "#" + strings.Repeat("p", int(pad)-2) + "\n"
-					content = append(content, line...)
-				}
-			}
+		if st, err := os.Stat(s.name[pi]); err == nil {
+			content = padTo(content, st.Size())
 		}
 		// how long to wait: ask the loader itself (on a private copy) whether this file is acceptable
 		probe := s.name[pi] + ".probe"
@@ -198,29 +191,46 @@ func (s *fileState) exec(c *ctx, op string) string {
 		if s.h4 == nil {
 			return ""
 		}
-		res := guard(func() string {
-			req, _ := dhcpv4.New(dhcpv4.WithMessageType(dhcpv4.MessageTypeDiscover), dhcpv4.WithHwAddr(net.HardwareAddr(unhx(f[1]))))
-			req, _ = dhcpv4.FromBytes(req.ToBytes())
-			resp := stubResp4(req)
-			out, stop := s.h4(req, resp)
-			if out == nil {
-				return "nil"
-			}
-			if stop {
-				return fmt.Sprintf("yiaddr %s stop", hx(out.YourIPAddr.To4()))
-			}
-			if !out.YourIPAddr.Equal(net.IPv4zero) {
-				return "yiaddr-without-stop"
-			}
-			return "pass"
-		})
+		res := guard(func() string { return s.q4(unhx(f[1])) })
 		c.emit(op, res)
 		return res
 	case "fq6": // fq6 <machex|-> <hasIANA 0|1> <relaydepth>
 		if s.h6 == nil {
 			return ""
 		}
-		res := guard(func() string {
+		res := guard(func() string { return s.q6(f[1], f[2] == "1", atoi(f[3]), byte(c.count)) })
+		c.emit(op, res)
+		return res
+	case "fhammer":
+		return s.hammer(c, op, f)
+	}
+	panic("bad op " + op)
+}
+
+func (s *fileState) q4(mac []byte) string {
+	req, _ := dhcpv4.New(dhcpv4.WithMessageType(dhcpv4.MessageTypeDiscover), dhcpv4.WithHwAddr(net.HardwareAddr(mac)))
+	req, _ = dhcpv4.FromBytes(req.ToBytes())
+	resp := stubResp4(req)
+	out, stop := s.h4(req, resp)
+	if out == nil {
+		return "nil"
+	}
+	if stop {
+		return fmt.Sprintf("yiaddr %s stop", hx(out.YourIPAddr.To4()))
+	}
+	if !out.YourIPAddr.Equal(net.IPv4zero) {
+		return "yiaddr-without-stop"
+	}
+	return "pass"
+}
+
+func (s *fileState) q6(machex string, hasIANA bool, depth int, tag byte) string {
+	{
+		{
+			f := []string{"fq6", machex, "0", fmt.Sprint(depth)}
+			if hasIANA {
+				f[2] = "1"
+			}
 			m, _ := dhcpv6.NewMessage()
 			m.MessageType = dhcpv6.MessageTypeSolicit
 			mac := unhx(f[1])
@@ -229,7 +239,7 @@ func (s *fileState) exec(c *ctx, op string) string {
 			} else {
 				m.AddOption(dhcpv6.OptClientID(&dhcpv6.DUIDEN{EnterpriseNumber: 7, EnterpriseIdentifier: []byte{1, 2, 3, 4}}))
 			}
-			iaid := [4]byte{0xaa, 0xbb, byte(c.count), 1}
+			iaid := [4]byte{0xaa, 0xbb, tag, 1}
 			if f[2] == "1" {
 				m.AddOption(&dhcpv6.OptIANA{IaId: iaid})
 			}
@@ -262,11 +272,28 @@ func (s *fileState) exec(c *ctx, op string) string {
 				ok = "iaid-wrong"
 			}
 			return fmt.Sprintf("iana %s %s %d %d", hx(a.IPv6Addr.To16()), ok, int64(a.PreferredLifetime/time.Second), int64(a.ValidLifetime/time.Second))
-		})
-		c.emit(op, res)
-		return res
+		}
 	}
-	panic("bad op " + op)
+}
+
+// padTo pads a lease file with comment lines up to the given length
+func padTo(content []byte, size int64) []byte {
+	if int64(len(content)) >= size {
+		return content
+	}
+	if len(content) > 0 && content[len(content)-1] != '\n' {
+		content = append(content, '\n')
+	}
+	for int64(len(content)) < size {
+		pad := size - int64(len(content))
+		if pad == 1 {
+			content = append(content, '\n')
+		} else {
+			line := "#" + strings.Repeat("p", int(pad)-2) + "\n"
+			content = append(content, line...)
+		}
+	}
+	return content
 }
 
 func replayFile(c *ctx, ops []string) {
